@@ -76,7 +76,9 @@ def case(draw, tier):
                 producers[0].append({"ph": ph, "v": k, "blocking": False, "delay_us": draw(st.sampled_from([0, 100, 800]))})
     # request_stop() from the controller thread BEFORE the runner thread has entered run(): the run must still end
     stop_before_run = draw(st.integers(0, 14)) == 0
-    return {"stop_before_run": stop_before_run, "window_us": window_us, "by_end": by_end, "timers": timers, "sleep_us": draw(st.sampled_from([600, 2000, 5000])) if sleeper else 0,
+    # run window: starts "now" (default), a little in the past (the loop lags from its first cycle) or in the future
+    start_in_us = draw(st.sampled_from([None, None, None, -3000, -200, 1500, 4000]))
+    return {"start_in_us": start_in_us, "stop_before_run": stop_before_run, "window_us": window_us, "by_end": by_end, "timers": timers, "sleep_us": draw(st.sampled_from([600, 2000, 5000])) if sleeper else 0,
             "push": push, "producers": producers, "stop_after_us": draw(st.sampled_from([0, 300, 3000]))}
 
 
@@ -99,8 +101,10 @@ def check(case, ctx) -> Result:
     prog = {"mode": "rt", "max_wait_slice_us": 3600000000, "node_events": True, "stmts": stmts}
     rt = {"n_push": 1 if case["push"] else 0, "producers": case["producers"], "count_drain": case["push"]}
 
+    if case.get("start_in_us") is not None:
+        prog["start_in_us"] = case["start_in_us"]
     if case["by_end"]:
-        prog["end_in_us"] = case["window_us"]
+        prog["end_in_us"] = case["window_us"] + max(0, case.get("start_in_us") or 0)
     else:
         rt["stop_after_us"] = case["stop_after_us"]
     if case.get("stop_before_run"):
